@@ -1,6 +1,8 @@
 package worker
 
 import (
+	"strings"
+
 	"bytes"
 	"encoding/hex"
 	"fmt"
@@ -29,6 +31,7 @@ type HistResult struct {
 	Altered    []string         `json:"altered,omitempty"`
 	Scribbles  int              `json:"scribbles"`
 	Reinspects int              `json:"reinspects"`
+	Stopped    int              `json:"stopped_after_op,omitempty"` // a dying device ended the history after this op
 }
 
 // RunHist executes the plan. d is the device in front of NewMnemonic (nil for
@@ -72,6 +75,12 @@ func RunHist(p *HistPlan, d *dev.Dev, identity func() (bool, string)) *HistResul
 			res.Reads = append(res.Reads, nil)
 		}
 		checkID(i)
+		if d != nil && len(d.Log) > 0 && strings.HasPrefix(d.Log[len(d.Log)-1].Err, "panic-") {
+			// the source itself panicked inside this call: the simulated caller does not go on using the
+			// library in this process (whatever the panic left half-done, e.g. a held lock, is not this property's business)
+			res.Stopped = i
+			break
+		}
 		if p.Hold {
 			for _, k := range held {
 				res.Reinspects++
